@@ -176,6 +176,10 @@ def check_tag(rec, label, schema, tag, ns, HedTag, HedString):
                     got = (t.tag_exists_in_schema(), t.long_tag, t.short_tag, t.base_tag, t.short_base_tag,
                            t.extension, t.org_base_tag)
                     entry_long = t._schema_entry.long_tag_name if t._schema_entry else None
+                    # a tag written with a value is the node's '#' child (the entry that carries the value's classes)
+                    if entry_long == long_c and tag.value_child is not None and suf and \
+                            (t._schema_entry.name != long_c + "/#" or not t.is_takes_value_tag()):
+                        entry_long = t._schema_entry.name + " (not the value-taking child)"
                 except Exception as e:
                     rec.violation("C03:raises:" + type(e).__name__, config=label, text=text, error=repr(e)[:200])
                     continue
